@@ -75,6 +75,7 @@ Definition ut_shape (u : update_task_cmd) : Prop :=
   (ut_state u = TClaimed -> ut_cur_states u = [TInit; TEnqueued] /\ ut_pid u <> None /\ ut_counter u = ut_cur_counter u) /\
   (ut_state u = TCompleted -> ut_cur_states u = [TClaimed] \/ ut_cur_states u = [TInit]) /\
   (ut_state u = TEnqueued -> ut_cur_states u = [TInit]) /\
+  (ut_state u = TInit -> ut_counter u = ut_cur_counter u -> ut_cur_states u = [TInit]) /\
   (ut_state u = TTimedout -> ut_counter u = ut_cur_counter u) /\
   (ut_state u = TInit \/ ut_state u = TEnqueued \/ ut_state u = TClaimed \/ ut_state u = TCompleted \/ ut_state u = TTimedout).
 
